@@ -44,6 +44,9 @@ struct SDecl {
     rsrc: Option<String>,
     /// the names the declaration refers to
     refs: Vec<String>,
+    /// single source written `X as v` (no sequence operators); .. and X is an earlier declared stream
+    aliased: bool,
+    aliased_derived: bool,
 }
 
 #[derive(Clone, Debug)]
@@ -87,11 +90,13 @@ struct Spec {
     d: i64,
     /// sequence correlation on k
     corr: bool,
+    /// single-source kinds: the source is written with an alias (`X as v`), on raw types and on derived streams
+    alias: bool,
 }
 
 const KINDS: &[(&str, u64)] = &[
     ("filter", 10), ("femit", 14), ("emit", 12), ("pass", 4), ("cwin", 8), ("cwin_noemit", 4), ("twin", 5),
-    ("swin", 3), ("pwin", 4), ("seq", 10), ("seq_noemit", 3), ("seq3", 3), ("join", 8), ("merge", 5), ("proc", 5), ("proc_emit", 2),
+    ("swin", 3), ("pwin", 4), ("seq", 10), ("seq_noemit", 3), ("seq3", 3), ("seq_plain", 3), ("join", 8), ("merge", 5), ("proc", 5), ("proc_emit", 2),
     ("proc1", 2), ("distinct", 3), ("limit", 3), ("select", 3), ("having", 3),
 ];
 
@@ -115,7 +120,7 @@ fn gen_spec(rng: &mut Rng, name: &str, src: &[String], kind_hint: Option<&str>) 
         while s1 == s0 && guard < 8 { s1 = pick(rng); guard += 1; }
         if s1 == s0 { s1 = INPUT_TYPES.iter().map(|t| t.to_string()).find(|t| *t != s0).unwrap(); }
     }
-    Spec { name: name.to_string(), kind, s: vec![s0, s1, s2], c: thr(rng), n: rng.range(2, 3), d: rng.range(0, 2), corr: rng.chance(1, 2) }
+    Spec { name: name.to_string(), kind, s: vec![s0, s1, s2], c: thr(rng), n: rng.range(2, 3), d: rng.range(0, 2), corr: rng.chance(1, 2), alias: rng.chance(1, 3) }
 }
 
 /// render a declaration; `decl_before`: the declarations registered before this one
@@ -124,7 +129,7 @@ fn render(sp: &Spec, decl_before: &[SDecl]) -> SDecl {
     let (c, n, dd) = (sp.c, sp.n, sp.d);
     let kind = sp.kind.clone();
     let mut d = SDecl { name: sp.name.clone(), body: String::new(), subs: vec![s0.clone()], prim: vec![s0.clone()],
-        join: false, proc_: false, kind: kind.clone(), nops: 0, stateless: false, rsrc: Some(s0.clone()), refs: vec![s0.clone()] };
+        join: false, proc_: false, kind: kind.clone(), nops: 0, stateless: false, rsrc: Some(s0.clone()), refs: vec![s0.clone()], aliased: false, aliased_derived: false };
     // `resolve_event_type` of `compile_ops_with_sequences`: a sequence step that names an already
     // registered stream is subscribed under that stream's own source (one level)
     let resolve = |n: &String| -> String {
@@ -133,6 +138,11 @@ fn render(sp: &Spec, decl_before: &[SDecl]) -> SDecl {
             None => n.clone(),
         }
     };
+    // an aliased source without sequence operators: `X as v .where(..)`. The engine compiles it to
+    // RuntimeSource::EventType(X) and registers it for X only - also when X is a derived stream.
+    let a0 = if sp.alias { format!("{s0} as v") } else { s0.clone() };
+    let s0src = s0.clone();
+    let s0 = a0;
     match kind.as_str() {
         "filter" => { d.body = format!("{s0}\n    .where(x > {c})"); d.nops = 1; d.stateless = true; }
         "femit" => { d.body = format!("{s0}\n    .where(x > {c})\n    .emit(k: k, x: x)"); d.nops = 2; d.stateless = true; }
@@ -144,7 +154,16 @@ fn render(sp: &Spec, decl_before: &[SDecl]) -> SDecl {
         "swin" => { d.body = format!("{s0}\n    .window({}, sliding: 1)\n    .aggregate(n: count(), s: sum(x))\n    .emit(k: n, x: s)", n + 1); d.nops = 3; }
         "pwin" => { d.body = format!("{s0}\n    .partition_by(k)\n    .window({n})\n    .aggregate(n: count(), s: sum(x))\n    .emit(k: n, x: s)"); d.nops = 3; }
         "having" => { d.body = format!("{s0}\n    .window({n})\n    .aggregate(n: count(), s: sum(x))\n    .having(s > {c})\n    .emit(k: n, x: s)"); d.nops = 4; }
+        "seq_plain" => {
+            // a sequence whose first step has no alias: StreamSource::Ident + FollowedBy
+            let s0 = s0src.clone();
+            d.body = format!("{s0}\n    -> {s1}\n    .emit(k: 1, x: 2)");
+            d.nops = 2;
+            d.subs = vec![s0.clone(), resolve(&s0), resolve(&s1)];
+            d.refs = vec![s0.clone(), s1.clone()];
+        }
         "seq" | "seq_noemit" => {
+            let s0 = s0src.clone();
             let cond = if sp.corr { " where k == a.k".to_string() } else { String::new() };
             d.body = format!("{s0} as a\n    -> {s1}{cond} as b");
             d.nops = 1;
@@ -153,12 +172,14 @@ fn render(sp: &Spec, decl_before: &[SDecl]) -> SDecl {
             d.refs = vec![s0.clone(), s1.clone()];
         }
         "seq3" => {
+            let s0 = s0src.clone();
             d.body = format!("{s0} as a\n    -> {s1} as b\n    -> {s2} where x > {c} as c\n    .emit(k: a.k, x: c.x)");
             d.nops = 2;
             d.subs = vec![s0.clone(), resolve(&s0), resolve(&s1), resolve(&s2)];
             d.refs = vec![s0.clone(), s1.clone(), s2.clone()];
         }
         "join" => {
+            let s0 = s0src.clone();
             d.body = format!("join({s0}, {s1})\n    .on({s0}.k == {s1}.k)\n    .window(10s)\n    .select(k: {s0}.k, x: {s0}.x + {s1}.x)\n    .emit(k: k, x: x)");
             d.nops = 3;
             d.join = true;
@@ -175,6 +196,7 @@ fn render(sp: &Spec, decl_before: &[SDecl]) -> SDecl {
             d.rsrc = None;
         }
         "merge" => {
+            let s0 = s0src.clone();
             d.body = format!("merge({s0}, {s1})\n    .emit(k: k, x: x)");
             d.nops = 1;
             d.subs = vec![s0.clone(), s1.clone()];
@@ -194,6 +216,10 @@ fn render(sp: &Spec, decl_before: &[SDecl]) -> SDecl {
     d.subs = dedup(&d.subs);
     d.prim = dedup(&d.prim);
     d.refs = dedup(&d.refs);
+    if sp.alias && !kind.starts_with("seq") && kind != "join" && kind != "merge" {
+        d.aliased = true;
+        d.aliased_derived = decl_before.iter().any(|p| p.name == s0src);
+    }
     d
 }
 
@@ -241,10 +267,49 @@ fn dedup(v: &[String]) -> Vec<String> {
     out
 }
 
+const NAME_POOL: &[&str] = &["S0", "S1", "S2", "S3", "S4", "Hot", "Alert", "Warm", "Notify", "Ack", "Zulu", "Beta", "Q", "Xy", "Later", "Cold", "Pairs", "Session", "Flt", "Agg9"];
+
+fn pick_names(rng: &mut Rng, n: usize) -> Vec<String> {
+    let mut pool: Vec<&str> = NAME_POOL.to_vec();
+    (0..n).map(|_| pool.remove(rng.below(pool.len() as u64) as usize).to_string()).collect()
+}
+
+/// C23: a derived stream with a filter and a sequence / join stream that names it (the engine inlines
+/// the derived stream's filter into the sequence and resolves its routes through it), in both
+/// declaration orders, plus up to two unrelated streams; returns the index of the derived stream
+fn gen_dependent_specs(rng: &mut Rng) -> (Vec<Spec>, usize) {
+    let n_extra = rng.below(3) as usize;
+    let names = pick_names(rng, 2 + n_extra);
+    let inputs: Vec<String> = INPUT_TYPES.iter().map(|s| s.to_string()).collect();
+    let t = inputs[rng.below(3) as usize].clone();
+    let other = inputs[rng.below(3) as usize].clone();
+    let dk = *rng.pick(&["filter", "femit", "femit", "proc1"]);
+    let mut derived = gen_spec(rng, &names[0], &[t.clone()], Some(dk));
+    derived.alias = rng.chance(1, 4);
+    let dep_kind = *rng.pick(&["seq", "seq", "seq_noemit", "seq3", "seq_plain", "join"]);
+    let mut dep = gen_spec(rng, &names[1], &[names[0].clone()], Some(dep_kind));
+    // the derived stream at a random step, another type at the others
+    let pos = rng.below(if dep_kind == "seq3" { 3 } else { 2 }) as usize;
+    for (i, x) in dep.s.iter_mut().enumerate() { *x = if i == pos { names[0].clone() } else { other.clone() }; }
+    if dep_kind == "join" && dep.s[0] == dep.s[1] { dep.s[1] = inputs.iter().find(|x| **x != dep.s[0]).unwrap().clone(); }
+    let mut specs = if rng.chance(3, 4) { vec![derived, dep] } else { vec![dep, derived] };
+    for i in 0..n_extra {
+        let mut pool = inputs.clone();
+        pool.push(names[0].clone());
+        let sp = gen_spec(rng, &names[2 + i], &pool, None);
+        let at = rng.below(specs.len() as u64 + 1) as usize;
+        specs.insert(at, sp);
+    }
+    tame(&mut specs);
+    let di = specs.iter().position(|s| s.name == names[0]).unwrap();
+    (specs, di)
+}
+
 fn gen_specs(rng: &mut Rng) -> Vec<Spec> {
     let n = 1 + rng.below(5) as usize;
-    // stream names; rarely a stream is named like an input type ("self-named types")
-    let mut names: Vec<String> = (0..n).map(|i| format!("S{}", i)).collect();
+    // stream names from a pool (hash-map iteration orders of the engine vary with the names);
+    // rarely a stream is named like an input type ("self-named types")
+    let mut names: Vec<String> = pick_names(rng, n);
     if rng.chance(1, 12) { let i = rng.below(n as u64) as usize; names[i] = "C".to_string(); }
     let shape = rng.below(10); // 0..5 random dag, 6 chain, 7 diamond, 8 cyclic, 9 fan-out
     let mut specs: Vec<Spec> = Vec::new();
@@ -471,7 +536,10 @@ fn scenario_paths(ctx: &mut Ctx, runner: &Runner, sc: usize, prop: &str) {
     for t in INPUT_TYPES { it.ty(t); }
     ctx.directive(&format!("new {} # {}", sc, prog.one_line()));
     emit_prog_lines(ctx, &mut it, "stream", &prog);
-    for d in &prog.streams { ctx.count(&format!("kind:{}", d.kind)); }
+    for d in &prog.streams {
+        ctx.count(&format!("kind:{}", d.kind));
+        if d.aliased { ctx.count(if d.aliased_derived { "source:aliased-derived-stream-no-seq-ops" } else { "source:aliased-raw-type-no-seq-ops" }); }
+    }
     ctx.count(&format!("streams:{}", prog.streams.len()));
     let names: Vec<String> = prog.streams.iter().map(|d| d.name.clone()).collect();
     // the router the engine built (C17: routing table, add_route dedup)
@@ -586,7 +654,7 @@ fn edit_once(rng: &mut Rng, specs: &mut Vec<Spec>) -> &'static str {
         }
         4 => { // renamed stream (references follow or not)
             let old = specs[i].name.clone();
-            let newn = format!("R{}", i);
+            let newn = { let used: Vec<&String> = specs.iter().map(|s| &s.name).collect(); NAME_POOL.iter().map(|x| x.to_string()).filter(|x| !used.contains(&x)).nth(rng.below(8) as usize).unwrap() };
             specs[i].name = newn.clone();
             if rng.chance(1, 2) {
                 for sp in specs.iter_mut() { for x in sp.s.iter_mut() { if *x == old { *x = newn.clone(); } } }
@@ -604,7 +672,7 @@ fn edit_once(rng: &mut Rng, specs: &mut Vec<Spec>) -> &'static str {
         6 => { // added stream
             let mut pool: Vec<String> = INPUT_TYPES.iter().map(|t| t.to_string()).collect();
             pool.extend(specs.iter().map(|s| s.name.clone()));
-            let name = format!("N{}", n);
+            let name = { let used: Vec<&String> = specs.iter().map(|s| &s.name).collect(); NAME_POOL.iter().map(|x| x.to_string()).filter(|x| !used.contains(&x)).nth(rng.below(8) as usize).unwrap() };
             let sp = gen_spec(rng, &name, &pool, None);
             let at = rng.below(n as u64 + 1) as usize;
             specs.insert(at, sp);
@@ -629,12 +697,24 @@ fn fmt_routes(it: &mut Intern, routes: &[(String, Vec<String>)]) -> String {
 }
 
 fn scenario_reload(ctx: &mut Ctx, runner: &Runner, sc: usize) {
-    let specs = gen_specs(&mut ctx.rng);
+    // one scenario in four: a sequence / join stream over a derived stream, and an edit of that derived stream
+    let dependent = ctx.rng.chance(1, 4);
+    let (specs, di) = if dependent { gen_dependent_specs(&mut ctx.rng) } else { (gen_specs(&mut ctx.rng), 0) };
     let mut specs2 = specs.clone();
-    let what: String = match ctx.rng.below(10) {
-        0 | 1 | 2 => "same".to_string(),
-        3 => { let a = edit_once(&mut ctx.rng, &mut specs2); let b = edit_once(&mut ctx.rng, &mut specs2); format!("{}+{}", a, b) }
-        _ => edit_once(&mut ctx.rng, &mut specs2).to_string(),
+    let what: String = if dependent {
+        match ctx.rng.below(8) {
+            0 => "dep:same".to_string(),
+            1 => { specs2[di].kind = (if specs2[di].kind == "filter" { "femit" } else { "filter" }).to_string(); "dep:add-remove-step".to_string() }
+            2 => { specs2[di].alias = !specs2[di].alias; "dep:alias-toggled".to_string() }
+            3 => { specs2.swap(0, 1); "dep:reorder".to_string() }
+            _ => { specs2[di].c += if ctx.rng.chance(1, 2) { 1 } else { -1 }; "dep:threshold-of-referenced-stream".to_string() }
+        }
+    } else {
+        match ctx.rng.below(10) {
+            0 | 1 | 2 => "same".to_string(),
+            3 => { let a = edit_once(&mut ctx.rng, &mut specs2); let b = edit_once(&mut ctx.rng, &mut specs2); format!("{}+{}", a, b) }
+            _ => edit_once(&mut ctx.rng, &mut specs2).to_string(),
+        }
     };
     tame(&mut specs2);
     let p1 = render_prog(&specs);
@@ -651,7 +731,10 @@ fn scenario_reload(ctx: &mut Ctx, runner: &Runner, sc: usize) {
     if std::env::var("VERIF_ROUTE_TIMERS").is_ok() { eprintln!("scenario {} # {} ==[{}]==> {} ({} events, path {})", sc, p1.one_line(), what, p2.one_line(), nev, path.name()); }
     emit_prog_lines(ctx, &mut it, "stream", &p1);
     emit_prog_lines(ctx, &mut it, "rstream", &p2);
-    for d in &p2.streams { ctx.count(&format!("kind:{}", d.kind)); }
+    for d in &p2.streams {
+        ctx.count(&format!("kind:{}", d.kind));
+        if d.aliased { ctx.count(if d.aliased_derived { "source:aliased-derived-stream-no-seq-ops" } else { "source:aliased-raw-type-no-seq-ops" }); }
+    }
     let program2 = match varpulis_parser::parse(&vpl2) {
         Ok(p) => p,
         Err(e) => { eprintln!("generator error: front end rejects a generated program: {}\n{}", e, vpl2); std::process::exit(3); }
@@ -677,7 +760,21 @@ fn scenario_reload(ctx: &mut Ctx, runner: &Runner, sc: usize) {
         let mut live = match runner.load_program(&program1) { Ok(l) => l, Err(e) => { eprintln!("generator error: {}\n{}", e, vpl1); std::process::exit(3); } };
         let (out_pre, calls_pre) = feed_all(&mut live, &events[..k]);
         let rep = timed("reload", || live.engine.reload(&program2));
-        if let Err(e) = rep { ctx.case(&format!("reload {} {}", k, inputs), &format!("error:{}", e.replace('\n', " "))); continue; }
+        let rep = match rep {
+            Err(e) => { ctx.case(&format!("reload {} {}", k, inputs), &format!("error:{}", e.replace('\n', " "))); continue; }
+            Ok(r) => r,
+        };
+        if dependent && k == 0 && !same {
+            // the order in which reload's hash-set loop visited the derived stream and its dependent (both must occur)
+            let dname = &specs[di].name;
+            let pd = rep.streams_updated.iter().position(|n| n == dname);
+            let pq = rep.streams_updated.iter().position(|n| n != dname && specs.iter().any(|s| &s.name == n && s.s.contains(dname)));
+            match (pd, pq) {
+                (Some(a), Some(b)) if a < b => ctx.count("dep-visit-order:referenced-stream-first"),
+                (Some(_), Some(_)) => ctx.count("dep-visit-order:dependent-first"),
+                _ => ctx.count("dep-visit-order:n/a"),
+            }
+        }
         let routes = live.engine.verif_routes();
         let (out_post, calls_post) = feed_all(&mut live, &events[k..]);
         if k == 0 { ctx.case("rrouter", &fmt_routes(&mut it, &routes)); }
@@ -696,11 +793,11 @@ fn scenario_reload(ctx: &mut Ctx, runner: &Runner, sc: usize) {
             let (o, _) = feed_all(&mut f, &events);
             ctx.case(&format!("fresh0 {}", inputs), &format!("{} / {}", it.evs(out_post.iter()), it.evs(o.iter())));
         }
-        // every stream of P' in isolation: a fresh engine of P' is handed exactly what the stream was handed
-        // (before and after the reload if the stream is unchanged, after the reload if it is new or changed)
-        // (runs whose derived events multiply are isolated at the first and last reload point only)
-        let big = calls_pre.len() + calls_post.len() > 100;
-        if big && k != 0 && k != events.len() { ctx.count("iso:omitted-heavy-run"); continue; }
+        // every stream of P' in isolation: the same stream of a FRESH engine of P' is handed (directly, through
+        // the verif_invoke_stream hook: no routing, no cascade) exactly the events the real stream was handed -
+        // before and after the reload if the stream is unchanged, after the reload if it is new or changed
+        // (also when only a stream it refers to changed) - and must answer the same
+        let routes2 = live.engine.verif_routes();
         for d2 in &p2.streams {
             // unchanged: same declaration, same registrations, and no stream it refers to was edited, added or removed
             let decl_changed = |n: &String| -> bool {
@@ -718,22 +815,24 @@ fn scenario_reload(ctx: &mut Ctx, runner: &Runner, sc: usize) {
             if unchanged { fed.extend(calls_pre.iter().filter(|c| c.stream == d2.name).map(|c| (*c.input).clone())); }
             let npre = fed.len();
             fed.extend(post.iter().map(|c| (*c.input).clone()));
-            if fed.len() > 60 { ctx.count("iso:omitted-long-input"); continue; }
+            if fed.len() > 400 { ctx.count("iso:omitted-long-input"); continue; }
+            let sync_skip = if path == Path::Sync { Some(!d2.proc_ && !routes2.iter().any(|(t, _)| t == &d2.name)) } else { None };
             let mut f = runner.load_program(&program2).unwrap();
-            // one call per event, through the same entry point (the sync path's rename skipping shows in the recorded outputs)
+            let mut ref_results: Vec<String> = Vec::new();
             let mut ok = true;
-            let mut calls_ref: Vec<verif::StreamCall> = Vec::new();
             for e in &fed {
-                match runner.feed(&mut f, path, vec![e.clone()]) { Ok((_, c)) => calls_ref.extend(c), Err(_) => { ok = false; break; } }
+                match runner.rt.block_on(f.engine.verif_invoke_stream(&d2.name, Arc::new(e.clone()), sync_skip)) {
+                    Ok(Some((outs, em))) => ref_results.push(format!("{}|{}", it.evs(outs.iter().map(|e| &**e)), it.evs(em.iter().map(|e| &**e)))),
+                    _ => { ok = false; break; }
+                }
             }
-            let mine: Vec<&verif::StreamCall> = calls_ref.iter().filter(|c| c.stream == d2.name).collect();
             let sid = it.ty(&d2.name);
             let op = format!("iso {} {} changed={}", k, sid, (!unchanged) as u8);
-            let same_inputs = ok && mine.len() == fed.len() && mine.iter().zip(fed.iter()).all(|(c, e)| it.ev(&c.input) == it.ev(e));
-            if !same_inputs { ctx.case(&op, "skip"); ctx.count("iso:skipped"); continue; }
+            if !ok { ctx.case(&op, "skip"); ctx.count("iso:skipped"); continue; }
             ctx.count(if unchanged { "iso:unchanged" } else { "iso:changed" });
+            if !unchanged && !d2.refs.is_empty() && p1.streams.iter().any(|d1| d1.name == d2.name && d1.body == d2.body) { ctx.count("iso:changed-only-through-a-referenced-stream"); }
             let r = fmt_results(&mut it, &post);
-            let q = fmt_results(&mut it, &mine[npre..]);
+            let q = if ref_results[npre..].is_empty() { "-".to_string() } else { ref_results[npre..].join(";") };
             ctx.case(&op, &format!("{} / {}", r, q));
         }
     }
@@ -743,11 +842,11 @@ pub fn run(ctx: &mut Ctx, name: &str) {
     let runner = Runner::new();
     match name {
         "C16" | "C17" => {
-            let n = if ctx.thorough { 6000 } else { 600 };
+            let n = if ctx.thorough { 12000 } else { 1000 };
             for sc in 0..n { scenario_paths(ctx, &runner, sc, name); }
         }
         "C23" => {
-            let n = if ctx.thorough { 6000 } else { 600 };
+            let n = if ctx.thorough { 10000 } else { 900 };
             for sc in 0..n {
                 let t = std::time::Instant::now();
                 scenario_reload(ctx, &runner, sc);
